@@ -288,58 +288,69 @@ def orders(prog):
 
 
 # ------------------------------------------------------------------ names
-def scope_names(prog, role, item_idx=None):
-    """Sorted base spellings of a role in its scope (function for l/p, program for t/f)."""
-    names = set()
+def scope_keys(prog, role, item_idx=None):
+    """Sorted identifier keys of a role in its scope (function for l/p, program for t/f/g)."""
+    keys = set()
     its = [prog["items"][item_idx]] if role in ("l", "p") else prog["items"]
     for it in its:
         for r, k in all_ids(it):
             if r == role:
-                names.add(base_of(k))
-    return sorted(names)
+                keys.add(k)
+    return sorted(keys)
+
+
+def scope_names(prog, role, item_idx=None):
+    """Sorted base spellings of a role in its scope."""
+    return sorted(set(base_of(k) for k in scope_keys(prog, role, item_idx)))
 
 
 def name_table(prog, R):
-    """{(scope, role, base): concrete} with scope = item index for l/p and -1 for t/f/g.
-    scheme 0: as written.  scheme 1: rotation inside the scope's set of names of that role (names whose spelling is
-    also used by another role, and `main`, keep their spelling).  scheme 2: fresh spellings zz<role><letter><rank>
-    in reverse lexicographic order."""
+    """{(scope, role, key): concrete} with scope = item index for l/p and -1 for t/f/g.
+    scheme 0: as written.  scheme 1: rotation inside the scope's set of spellings of that role (spellings that another
+    role uses too, and `main`, stay).  scheme 2: a fresh spelling zz<role><letter><rank> per IDENTIFIER (two variables
+    that were spelled alike, one shadowing the other, get different spellings) in reverse lexicographic order."""
     table = {}
     n = len(prog["items"])
-    prog_names = {r: scope_names(prog, r) for r in ("t", "f", "g")}
+    keys_l = [scope_keys(prog, "l", j) for j in range(n)]
+    keys_p = [scope_keys(prog, "p", j) for j in range(n)]
+    prog_keys = {r: scope_keys(prog, r) for r in ("t", "f", "g")}
+    bases = lambda ks: sorted(set(base_of(k) for k in ks))
+    all_local = set()
+    for j in range(n):
+        all_local.update(bases(keys_l[j]))
+        all_local.update(bases(keys_p[j]))
     for idx in range(n):
-        loc = {r: scope_names(prog, r, idx) for r in ("l", "p")}
+        loc = {"l": keys_l[idx], "p": keys_p[idx]}
         for role in ("l", "p", "t", "f", "g"):
-            scope = idx if role in ("l", "p") else -1
-            names = loc[role] if role in ("l", "p") else prog_names[role]
             if role in ("t", "f", "g") and idx > 0:
                 continue
+            scope = idx if role in ("l", "p") else -1
+            keys = loc[role] if role in ("l", "p") else prog_keys[role]
+            names = bases(keys)
             others = set()
             for r2 in ("l", "p", "t", "f", "g"):
                 if r2 != role:
-                    others.update(loc[r2] if r2 in ("l", "p") else prog_names[r2])
+                    others.update(bases(loc[r2]) if r2 in ("l", "p") else bases(prog_keys[r2]))
             if role in ("t", "f", "g"):
-                # a program-scope name collides if any function uses the spelling for a local / parameter
-                for j in range(n):
-                    others.update(scope_names(prog, "l", j))
-                    others.update(scope_names(prog, "p", j))
+                others.update(all_local)      # a program-scope spelling that some function uses for a local / parameter
             scheme = R["names"].get(role, 0) if role != "g" else 0
             free = [b for b in names if b not in others and b != "main"]
-            for b in names:
+            for k in keys:
+                b = base_of(k)
                 if scheme == 0 or b == "main":
                     c = b
                 elif scheme == 1:
                     c = free[(free.index(b) + 1) % len(free)] if b in free else b
                 else:
-                    rank = names.index(b)
+                    rank = keys.index(k)
                     c = "zz%s%s%d" % (role, "zyxwvutsrqponmlkjihgfedcba"[rank % 26], rank)
-                table[(scope, role, b)] = c
+                table[(scope, role, k)] = c
     return table
 
 
 def concrete(table, idx, tok):
     role, key = tok[0], tok[1]
-    return table[(idx if role in ("l", "p") else -1, role, base_of(key))]
+    return table[(idx if role in ("l", "p") else -1, role, key)]
 
 
 # ------------------------------------------------------------------ renderer
@@ -469,7 +480,8 @@ def render(prog, R):
             linemap[len(out)] = (idx, li)
             colmap[len(out)] = cols
     names = {}
-    for (scope, role, b), c in table.items():
+    for (scope, role, k), c in table.items():
+        b = base_of(k)
         names.setdefault(scope, {})
         if c in names[scope] and names[scope][c] != b:
             raise AssertionError("rename collision %s in %s" % (c, prog["name"]))
@@ -648,7 +660,7 @@ def project_findings(prog, maps, findings):
             locs.append(p2 + ":" + project_text(maps, it2, info))
         indef = item >= 0 and bool(prog["items"][item]["entity"])
         mk = "%s|%s|%s|%s" % (f["id"], f["sev"], f["inc"], msg)
-        res.append({"id": f["id"], "key": mk + "|@" + pos + "|" + "|".join(locs), "mk": mk, "indef": indef,
-                    "ingroup": ing})
+        res.append({"id": f["id"], "key": mk + "|@" + pos + "|" + "|".join(locs), "mk": mk, "pk": mk + "|@" + pos, "indef": indef,
+                    "ingroup": ing, "sev": f["sev"]})
     res.sort(key=lambda r: r["key"])
     return res
